@@ -59,7 +59,10 @@ var c01CommentRE = regexp.MustCompile(`^\{\{/\*[^{}]*\*/\}\}$`)
 // markup the engine deliberately turns into text, or that a tokenizer reads as a bogus comment / leaves
 // unfinished: a tag opener followed by an action or by something that cannot start a tag name, markup
 // declarations other than comments and DOCTYPE, processing instructions, an opener at the very end
-var c01OddMarkupRE = regexp.MustCompile(`<\{\{|</\{\{|</[^A-Za-z]|</$|<![^-dD]|<!$|<!-[^-]|<!-$|<\?|<$|<[^A-Za-z/!?]`)
+// ... and comments that a tokenizer closes abruptly or in the legacy way (<!-->, <!--->, --!>): the engine closes a
+// comment at --> only, so it elides MORE static text than the tokenizer takes for the comment (never less: no data is
+// involved and data inside what the engine takes for a comment is dropped) - thorough-tier case struct#253540
+var c01OddMarkupRE = regexp.MustCompile(`<\{\{|</\{\{|</[^A-Za-z]|</$|<![^-dD]|<!$|<!-[^-]|<!-$|<\?|<$|<[^A-Za-z/!?]|<!---?>|--!>`)
 
 func c01Author(text, name string) string {
 	if name != "" || !strings.Contains(text, "{{") {
